@@ -14,9 +14,13 @@ LONG = {"L9": ("x", 9000), "L70": ("yz€", 23400)}  # longer than io.DEFAULT_BU
 
 
 def expand(tok):
-    """a line token is a str, or ["L9"|"L70", prefix] for a line longer than the I/O buffer"""
+    """a line token is a str, or ["L9"|"L70"|"B:<bytes>", prefix] for a line longer than the I/O buffer / of an exact byte length"""
     if isinstance(tok, str):
         return tok
+    if tok[0].startswith("B:"):
+        # a line of exactly that many bytes (without its terminator): with the "\n" it ends exactly at / one before / one after a
+        # multiple of io.DEFAULT_BUFFER_SIZE (8192) - the sizes at which chunked reads of a line split
+        return tok[1] + "x" * (int(tok[0][2:]) - len(tok[1].encode("utf-8")))
     unit, n = LONG[tok[0]]
     return tok[1] + unit * n
 
@@ -26,7 +30,8 @@ def line_strategy(with_cr=True, with_long=True):
     base = st.lists(st.sampled_from(atoms), max_size=4).map("".join)
     if not with_long:
         return base
-    long_ = st.tuples(st.sampled_from(["L9", "L70"]), st.sampled_from(["", "a", "é"])).map(list)
+    long_ = st.tuples(st.sampled_from(["L9", "L70", "B:8191", "B:8190", "B:8192", "B:16383", "B:65535", "B:4095", "B:8191"]),
+                      st.sampled_from(["", "a", "é"])).map(list)
     return st.tuples(st.integers(0, 35), base, long_).map(lambda t: t[2] if t[0] == 17 else t[1])
 
 
